@@ -378,7 +378,7 @@ Qed.
 
 Theorem step_wf : forall h o, wf_heap h -> wf_heap (fst (step h o)).
 Proof.
-  intros h o H. destruct o as [k s cells lbl|bk f x y|f i|f i|f i y|i l|i|i|i]; simpl.
+  intros h o H. destruct o as [k s cells lbl|bk f x y|f i|f i|f i y|i l|o i|i|i|i s m]; simpl.
   - destruct (size s =? length cells) eqn:Q; [|exact H]. simpl. apply wf_snoc; [exact H|].
     unfold wf_arr, fresh. simpl. apply Nat.eqb_eq in Q. lia.
   - apply step_bin_wf. exact H.
@@ -393,6 +393,10 @@ Proof.
   - destruct (get_ku E h i); exact H.
   - destruct (get_ku E h i) as [a|] eqn:G; [|exact H]. simpl. apply wf_snoc; [exact H|].
     apply get_ku_nth in G. destruct G as [G _]. pose proof (wf_nth _ _ _ H G) as W. exact W.
+  - destruct (nth_error h i) as [a|]; [|exact H].
+    destruct ((size s =? length m) && forallb (fun j => j <? length (a_cells E a)) m) eqn:Q; [|exact H].
+    simpl. apply wf_snoc; [exact H|]. unfold wf_arr, fresh. simpl. rewrite map_length.
+    apply andb_true_iff in Q. destruct Q as [Q _]. apply Nat.eqb_eq in Q. lia.
 Qed.
 
 (* every heap reachable by any history is well formed *)
@@ -648,7 +652,7 @@ Qed.
    object with _broadcasted_shape = None *)
 Theorem clean_step : forall h o, all_clean h -> all_clean (fst (step h o)).
 Proof.
-  intros h o H. destruct o as [k s cells lbl|bk f x y|f i|f i|f i y|i l|i|i|i]; simpl in *.
+  intros h o H. destruct o as [k s cells lbl|bk f x y|f i|f i|f i y|i l|o i|i|i|i s m]; simpl in *.
   - destruct (size s =? length cells); [|exact H]. simpl. apply clean_snoc_fresh. exact H.
   - unfold Array.step_bin.
     destruct (match is_ku E h x with Some i => Some i | None => is_ku E h y end) as [self|]; [|exact H].
@@ -664,6 +668,9 @@ Proof.
   - apply clean_step_un. exact H.
   - destruct (get_ku E h i); exact H.
   - destruct (get_ku E h i); [|exact H]. simpl. apply clean_snoc_fresh. exact H.
+  - destruct (nth_error h i) as [a|]; [|exact H].
+    destruct ((size s =? length m) && forallb (fun j => j <? length (a_cells E a)) m); [|exact H].
+    simpl. apply clean_snoc_fresh. exact H.
 Qed.
 
 Theorem clean_run : forall p h, all_clean h -> all_clean (fst (run h p)).
@@ -689,6 +696,22 @@ Proof.
   f_equal; [|apply IH; assumption].
   destruct a as [ka sa ca ba la], b as [kb sb cb bb lb]. unfold content_eq, clean_arr in *. simpl in *.
   destruct C as (K & S & Cc & L). subst. reflexivity.
+Qed.
+
+(* a NumPy view / re-laid-out copy: shape s, kind and label of the source, element k = source element m[k] *)
+Theorem view_gather : forall h i a s m,
+  nth_error h i = Some a -> length m = size s -> (forall j, In j m -> j < length (a_cells E a)) ->
+  exists cells,
+    step h (OView i s m) = (h ++ [fresh E (a_kind E a) s cells (a_label E a)], XArr (a_kind E a) s cells) /\
+    length cells = size s /\
+    forall k, k < size s -> nth k cells none = nth (nth k m 0) (a_cells E a) none.
+Proof.
+  intros h i a s m N L B. simpl. rewrite N.
+  assert (Q : (size s =? length m) && forallb (fun j => j <? length (a_cells E a)) m = true).
+  { apply andb_true_iff. split; [apply Nat.eqb_eq; lia|]. apply forallb_forall. intros j Hj. apply Nat.ltb_lt. auto. }
+  rewrite Q. eexists. split; [reflexivity|]. split; [rewrite map_length; exact L|].
+  intros k Hk. rewrite (nth_indep _ none (nth (0) (a_cells E a) none)) by (rewrite map_length; lia).
+  rewrite (map_nth (fun j => nth j (a_cells E a) none) m 0 k). reflexivity.
 Qed.
 
 (* a pickle round trip yields an object that every unary operation / view treats like the original *)
